@@ -211,6 +211,9 @@ func Main() {
 		if hl == 0 {
 			hl = 20 * time.Second
 		}
+		if *tier == "thorough" {
+			hl *= 4 // thorough cases are larger; the limits are per case, not oracles on a batch
+		}
 		go c.watchdog(hl)
 		ch.Run(c)
 		b, _ := json.Marshal(c.res)
@@ -288,6 +291,9 @@ func runShard(ch *Check, exe, tier string, i, n int, tmp string, deadline time.T
 		sl := ch.SingleLimit
 		if sl == 0 {
 			sl = 60 * time.Second
+		}
+		if tier == "thorough" {
+			sl *= 4
 		}
 		sout, serr := runLimited(ch, exe, []string{ch.ID, "--tier", tier, "--args", argsJSON, "--single", desc}, seed, sl)
 		if serr == nil {
